@@ -66,6 +66,19 @@ def run(chk):
                 chk.ok("C18.scope.connect", c, f"connect(): `{K.short(c, 50)}` is inside ceil_timeout(timeout.connect)")
             else:
                 chk.violation("C18.scope.connect", c, K.short(c), "async with ceil_timeout(timeout.connect, ...)", "waiting for a pool slot / establishing the connection is not bounded by the connect timeout")
+    # one deadline: `connect` bounds queueing for a slot *and* establishing the connection together, so both are under the same
+    # scope instance; a second `ceil_timeout(timeout.connect)` restarts the budget
+    scopes = {}
+    for pat in ("self._wait_for_available_connection($K, $T)", "self._create_connection(req, traces, timeout)"):
+        for c, _b in K.exprs(bc, pat):
+            for w in timeout_scopes(c, "connect"):
+                scopes.setdefault(id(w), (w, []))[1].append(c)
+    armed = [w for w in ast.walk(bc.node) if isinstance(w, (ast.With, ast.AsyncWith)) and any(prog.is_timeout_ctx(it.context_expr) and "timeout.connect" in norm.raw(it.context_expr) for it in w.items)]
+    if len(scopes) == 1 and len(armed) == 1:
+        chk.ok("C18.scope.connect", armed[0], "connect(): one ceil_timeout(timeout.connect) scope covers the wait for a slot and the connection attempt (a single deadline)")
+    else:
+        chk.violation("C18.scope.connect", armed[1] if len(armed) > 1 else bc, f"{len(armed)} x async with ceil_timeout(timeout.connect, ...)", "one scope around both phases",
+                      "the connect budget is armed more than once: a request that first queues for a slot and then stalls while connecting fails only after up to twice the configured bound")
     # ---- scope.total ---------------------------------------------------------------------------------------------------
     rq = repo.func(CLIENT, "ClientSession._request")
     loops = [w for w in ast.walk(rq.node) if isinstance(w, ast.While) and isinstance(w.test, ast.Constant)]
